@@ -2,6 +2,7 @@ package ast
 
 import (
 	"fmt"
+	"strconv"
 	"strings"
 
 	"github.com/smarthome-go/homescript/v3/homescript/errors"
@@ -96,12 +97,15 @@ func (self AnalyzedFloatLiteralExpression) Kind() ExpressionKind {
 }
 func (self AnalyzedFloatLiteralExpression) Span() errors.Span { return self.Range }
 func (self AnalyzedFloatLiteralExpression) String() string {
-	// If the float can be replresented as an int without loss, the 'f' extension is forced.
-	if float64(int64(self.Value)) == self.Value {
-		return fmt.Sprintf("%df", int64(self.Value))
+	// The lexer does not know exponents: always use the plain decimal notation.
+	str := strconv.FormatFloat(self.Value, 'f', -1, 64)
+
+	// If the float has no fractional part, the 'f' extension is forced.
+	if !strings.Contains(str, ".") {
+		str += "f"
 	}
 
-	return fmt.Sprint(self.Value)
+	return str
 }
 func (self AnalyzedFloatLiteralExpression) Type() Type     { return NewFloatType(self.Range) }
 func (self AnalyzedFloatLiteralExpression) Constant() bool { return true }
